@@ -6,6 +6,6 @@ Theorem first_allow_decides_rcpt : forall (E : Type) c s r (ls1 ls2 : list (E ->
   st s = MAIL -> (Z.of_nat (length (rcpts s)) < max_rcpt c)%Z ->
   (forall l', In l' ls1 -> l' e = None) -> l e = Some Allow ->
   step c s (L (Rcpt (RParsed (Some r)) (session_answer (broker_emit (ls1 ++ l :: ls2) e)))) =
-  Ok {| st := MAIL; from := from s; rcpts := rcpts s ++ [r]; helo := helo s |} (one 250) [].
+  Ok {| st := MAIL; from := from s; rcpts := rcpts s ++ [r]; helo := helo s; tls := tls s |} (one 250) [].
 Proof. first [exact HooksCompose.first_allow_decides_rcpt | intros; apply HooksCompose.first_allow_decides_rcpt]. Qed.
 Print Assumptions first_allow_decides_rcpt.
